@@ -1931,7 +1931,10 @@ func runC13(r *Run) {
 		"409 Conflict; the stream is rendered as JSON and as YAML, both are run through the real " +
 		"ParseOperations + ExecuteOperations on a fresh kube-client/fake cluster and compared with each other and with the model. " +
 		"25% of the values of inline payloads are scalars the two decoders type differently (integers around and above the int64 range, " +
-		"exponents, hex/octal, unquoted timestamps, booleans, strings that look like another type, long strings), written in YAML in one of their spellings. " +
+		"exponents, hex/octal, unquoted timestamps, booleans, strings that look like another type, long strings incl. one of 64 KiB and one of 300 000 bytes " +
+		"= one physical line of the file above 64 KiB), written in YAML in one of their spellings; 8% of the files of the random cases and 25% of the files of " +
+		"the operator-level cases are re-laid out without touching a token: one physical line of 4095 / 4096 / 65535 / 65536 / 65537 / 70000 / 131072 / 1 MiB+1 " +
+		"bytes (blanks behind or in front of a JSON document, a blank line, a YAML comment line behind or in front of a `---`) at a random document boundary. " +
 		"Operator-level cases (64 quick / 700 thorough + 4 corpus): 1-2 executions through the real taskHandler -> handleRunHook -> Hook.Run with a real " +
 		"bash hook that writes such a stream into $KUBERNETES_PATCH_PATH and exits 0 (60%) or non-zero (40%; then 60% of the patches are /status patches " +
 		"with ignoreHookError), the two executions (70%: the same hook in two queues) overlapping in a random interleaving of launch / write / exit " +
